@@ -366,7 +366,7 @@ func (r *Runtime) arrayproto_slice(call FunctionCall) Value {
 	a := arraySpeciesCreate(o, count)
 	// the length check makes sure that the array has not been modified since start and count were calculated
 	if src := r.checkStdArrayObj(o); src != nil && int64(len(src.values)) == length {
-		if dst := r.checkStdArrayObjWithProto(a); dst != nil {
+		if dst := r.checkStdArrayObjWithProto(a); dst != nil && dst.extensible && dst.lengthProp.writable {
 			values := make([]Value, count)
 			copy(values, src.values[start:])
 			setArrayValues(dst, values)
@@ -471,7 +471,7 @@ func (r *Runtime) arrayproto_splice(call FunctionCall) Value {
 	// so that nothing in it can run any user code, and if the source still has the length all the indexes were
 	// calculated for (converting the arguments and creating the destination could have modified it).
 	fast := false
-	if src := r.checkStdArrayObj(o); src != nil && a != o && int64(src.length) == length {
+	if src := r.checkStdArrayObj(o); src != nil && a != o && int64(src.length) == length && src.extensible && src.lengthProp.writable {
 		if dst := r.checkNewStdArrayObj(a); dst != nil {
 			deleted := make([]Value, actualDeleteCount)
 			copy(deleted, src.values[actualStart:])
@@ -562,7 +562,7 @@ func (r *Runtime) arrayproto_unshift(call FunctionCall) Value {
 		if newSize >= maxInt {
 			panic(r.NewTypeError("Invalid array length"))
 		}
-		if arr := r.checkStdArrayObjWithProto(o); arr != nil && newSize < math.MaxUint32 {
+		if arr := r.checkStdArrayObjWithProto(o); arr != nil && newSize < math.MaxUint32 && arr.extensible && arr.lengthProp.writable {
 			if int64(cap(arr.values)) >= newSize {
 				arr.values = arr.values[:newSize]
 				copy(arr.values[argCount:], arr.values[:length])
@@ -1030,11 +1030,8 @@ func (r *Runtime) arrayproto_reverse(call FunctionCall) Value {
 
 func (r *Runtime) arrayproto_shift(call FunctionCall) Value {
 	o := call.This.ToObject(r)
-	if a := r.checkStdArrayObjWithProto(o); a != nil {
+	if a := r.checkStdArrayObjWithProto(o); a != nil && a.lengthProp.writable {
 		if len(a.values) == 0 {
-			if !a.lengthProp.writable {
-				a.setLength(0, true) // will throw
-			}
 			return _undefined
 		}
 		first := a.values[0]
